@@ -59,6 +59,7 @@ void out_end(void)
 }
 
 static int stopped;
+int h_init_mismatch;
 
 void h_stop(const char * kind)
 {
@@ -110,8 +111,12 @@ static int split(char * line, char ** argv)
 static void run_script(const struct h_area * a, char ** lines, size_t n)
 {
     size_t i;
+    h_init_mismatch = 0;
     a->reset();
     stopped = 0;
+    if (h_init_mismatch) {
+        h_stop("static-initializer-differs-from-init");
+    }
     for (i = 0; i < n && !stopped; i++) {
         char * argv[H_MAXW];
         int argc = split(lines[i], argv);
@@ -180,7 +185,7 @@ int h_main(const struct h_area * a)
             }
             run_script(a, lines + i, j - i);
             COV_DUMP();
-        _exit(0);
+            _exit(0);
         }
         if (pid < 0) {
             perror("fork");
